@@ -49,3 +49,4 @@ CFG = {'level': 'fault_enumeration',
  'assumptions': ['Ed25519 signatures cannot be forged and crypto/ed25519, crypto/sha256, encoding/base64 are correct',
                  'ref/refnote transcribes the signed-note format of the package documentation correctly']}
 CFG['level_text'] += " Round trips also give a co-signer, or a signature already carried by the note, one of fifteen odd names (invalid UTF-8, spaces, '+', empty, unusual but carriable): Sign may refuse, but a message it returns must open with the same text."
+CFG['level_text'] += ' A third of all messages are opened twice with the same verifier objects and must end the same way; every slice handed to VerifierList is overwritten with a decoy verifier afterwards.'
